@@ -60,7 +60,52 @@ def _pool_job(job):
         out["problems"].append(("global_rng_dependence", f"np.random.seed(1) -> {i0}, seed(2) -> {i2}, seed(3) -> {i3}"))
     if not same(i0, u0, i4, u4):
         out["problems"].append(("repeat_differs", f"{i0} then {i4} on the same object"))
+    for lab in ("cold", str(rng.choice(["few", "half"]))):      # cold start: every prediction is a tie
+        _prefit_variant(E, rng, classes, seed, bs, out, same, lab)
     return out
+
+
+def _prefit_variant(E, rng, classes, seed, bs, out, same, lab):
+    """The same call repeated with the SAME pre-fitted model objects (fit_clf / fit_ensemble / fit_reg = False),
+    and a fresh twin with freshly fitted equal models; cold-start / tie-heavy data so that tie-breaking inside
+    the models' predict is exercised."""
+    import inspect
+    params = inspect.signature(E.make(classes, seed).query).parameters
+    flags = [f for f in ("fit_clf", "fit_ensemble", "fit_reg") if f in params]
+    if not flags:
+        return
+    n = int(rng.integers(6, 11))
+    X, y, _, _, labeling = R.gen_data(rng, E.task, n=n, binary=E.binary, cold=lab)
+    if len(classes) != (2 if E.binary else len(classes)):
+        return
+    y = np.where(np.isnan(y), np.nan, np.minimum(y, len(classes) - 1)) if E.task == "clf" else y
+
+    def build():
+        kw = E.kw(classes, seed)
+        for v in kw.values():
+            for m in (v if isinstance(v, (list, tuple)) else [v]):
+                if hasattr(m, "fit"):
+                    m.fit(X, y)
+        for f in flags:
+            kw[f] = False
+        return kw
+    try:
+        kwA, qsA = build(), E.make(classes, seed)
+        np.random.seed(1)                 # dependence on the global generator is the business of the first phase
+        r1 = qsA.query(X=X.copy(), y=y.copy(), batch_size=bs, return_utilities=True, **kwA)
+        np.random.seed(1)
+        r2 = qsA.query(X=X.copy(), y=y.copy(), batch_size=bs, return_utilities=True, **kwA)
+        np.random.seed(1)
+        r3 = E.make(classes, seed).query(X=X.copy(), y=y.copy(), batch_size=bs, return_utilities=True, **build())
+    except Exception as e:
+        return
+    f = lambda r: (np.asarray(r[0]).tolist(), np.asarray(r[1], dtype=float))
+    (a1, u1), (a2, u2), (a3, u3) = f(r1), f(r2), f(r3)
+    out["prefit"] = {"X": X.tolist(), "y": [None if np.isnan(v) else v for v in y], "labeling": labeling, "flags": flags}
+    if not same(a1, u1, a2, u2):
+        out["problems"].append(("repeat_differs_prefit", f"{a1} then {a2} with the same pre-fitted models ({', '.join(flags)}=False, {labeling})"))
+    if not same(a1, u1, a3, u3):
+        out["problems"].append(("twins_differ_prefit", f"{a1} vs {a3} for twins with equal pre-fitted models ({', '.join(flags)}=False, {labeling})"))
 
 
 def run(ctx):
@@ -112,7 +157,7 @@ def run(ctx):
             if kind == "exception":
                 ctx.hist["query_exception(not C06)"] += 1
                 continue
-            ctx.violation(out["name"], kind, msg, {k: out[k] for k in ("name", "seed", "X", "y", "bs")}, what=f"{out['name']}: {kind.replace('_', ' ')} ({msg})")
+            ctx.violation(out["name"], kind, msg, {k: out.get(k) for k in ("name", "seed", "X", "y", "bs", "prefit")}, what=f"{out['name']}: {kind.replace('_', ' ')} ({msg})")
     # ---- dynamic: stream managers / baselines ----
     rng = ctx.rng("c06s")
     for kind in S.ALL_KINDS:
